@@ -1,4 +1,423 @@
 /- Helper lemmas for the store-lock protocol model. -/
 import Vet.Model.Lock
 namespace Vet.Lock
+
+/-! ### `setProc` -/
+
+theorem setProc_procs_getElem? (s : State) (pid q : Nat) (p : Proc) :
+    (setProc s pid p).procs[q]? =
+      if q = pid then (s.procs[q]?).map (fun _ => p) else s.procs[q]? := by
+  simp only [setProc, List.getElem?_map, List.getElem?_zipIdx, Option.map_map]
+  cases s.procs[q]? with
+  | none => simp
+  | some a => by_cases h : q = pid <;> simp [h]
+
+theorem procs_set {s : State} {pid : Nat} {p0 : Proc} (hp : s.procs[pid]? = some p0)
+    (q : Nat) (p : Proc) :
+    (setProc s pid p).procs[q]? = if q = pid then some p else s.procs[q]? := by
+  rw [setProc_procs_getElem?]
+  by_cases h : q = pid
+  · subst h; simp [hp]
+  · simp [h]
+
+@[simp] theorem setProc_files (s : State) (pid : Nat) (p : Proc) :
+    (setProc s pid p).files = s.files := rfl
+@[simp] theorem setProc_holder (s : State) (pid : Nat) (p : Proc) :
+    (setProc s pid p).holder = s.holder := rfl
+@[simp] theorem setProc_order (s : State) (pid : Nat) (p : Proc) :
+    (setProc s pid p).order = s.order := rfl
+
+/-! ### list facts -/
+
+theorem nodup_split_unique {α} {b b' a a' : List α} {x : α}
+    (hn : (b ++ x :: a).Nodup) (h : b ++ x :: a = b' ++ x :: a') : b = b' := by
+  induction b generalizing b' with
+  | nil =>
+    cases b' with
+    | nil => rfl
+    | cons y t =>
+      simp only [List.nil_append, List.cons_append, List.cons.injEq] at h
+      obtain ⟨rfl, rfl⟩ := h
+      simp at hn
+  | cons y t ih =>
+    cases b' with
+    | nil =>
+      simp only [List.nil_append, List.cons_append, List.cons.injEq] at h
+      obtain ⟨rfl, rfl⟩ := h
+      simp at hn
+    | cons z t' =>
+      simp only [List.cons_append, List.cons.injEq] at h
+      obtain ⟨rfl, h⟩ := h
+      simp only [List.cons_append, List.nodup_cons] at hn
+      rw [ih hn.2 h]
+
+/-- writers among a list of pids -/
+def wf (writers : List Bool) (l : List Nat) : List Nat :=
+  l.filter (fun q => writers.getD q false)
+
+theorem wf_append_singleton (writers : List Bool) (l : List Nat) (h : Nat) :
+    wf writers (l ++ [h]) = wf writers l ++ (if writers.getD h false then [h] else []) := by
+  simp only [wf, List.filter_append, List.filter_cons, List.filter_nil]
+
+/-! ### the invariant -/
+
+/-- state of the lock holder `h` and of the files; `B` is the content when `h` took the lock -/
+def HolderOK (B : List Nat) (h : Nat) (ph : Proc) (f : Files) : Prop :=
+  1 ≤ ph.pc ∧ ph.pc ≤ 10 ∧
+  (2 ≤ ph.pc → ph.gotCfg = .full B) ∧ (3 ≤ ph.pc → ph.gotAudits = .full B) ∧
+  (4 ≤ ph.pc → ph.gotImports = .full B) ∧ (5 ≤ ph.pc → ph.writer = true) ∧
+  f.cfg = (if ph.pc ≤ 5 then .full B else if ph.pc ≤ 8 then .torn else .full (B ++ [h])) ∧
+  f.audits = (if ph.pc ≤ 4 then .full B else if ph.pc ≤ 7 then .torn else .full (B ++ [h])) ∧
+  f.imports = (if ph.pc ≤ 6 then .full B else if ph.pc ≤ 9 then .torn else .full (B ++ [h]))
+
+structure Inv (log : List Nat) (writers : List Bool) (s : State) : Prop where
+  wr : ∀ (q : Nat) (p : Proc), s.procs[q]? = some p → writers[q]? = some p.writer
+  nodup : s.order.Nodup
+  mem : ∀ (q : Nat) (p : Proc), s.procs[q]? = some p → (q ∈ s.order ↔ p.pc ≠ 0)
+  bound : ∀ (q : Nat), q ∈ s.order → ∃ p, s.procs[q]? = some p
+  hist : ∀ (before : List Nat) (q : Nat) (after : List Nat) (p : Proc), s.order = before ++ q :: after → s.procs[q]? = some p → p.pc = 11 →
+    p.gotCfg = .full (log ++ wf writers before) ∧ p.gotAudits = .full (log ++ wf writers before) ∧
+    p.gotImports = .full (log ++ wf writers before)
+  free : s.holder = none →
+    (∀ (q : Nat) (p : Proc), s.procs[q]? = some p → p.pc = 0 ∨ p.pc = 11) ∧
+    s.files.cfg = .full (log ++ wf writers s.order) ∧
+    s.files.audits = .full (log ++ wf writers s.order) ∧
+    s.files.imports = .full (log ++ wf writers s.order)
+  held : ∀ h, s.holder = some h → ∃ (done : List Nat) (ph : Proc), s.order = done ++ [h] ∧ s.procs[h]? = some ph ∧
+    (∀ (q : Nat) (p : Proc), q ≠ h → s.procs[q]? = some p → p.pc = 0 ∨ p.pc = 11) ∧
+    HolderOK (log ++ wf writers done) h ph s.files
+
+theorem inv_init (log : List Nat) (writers : List Bool) : Inv log writers (init log writers) := by
+  have hq : ∀ (q : Nat) (p : Proc), (init log writers).procs[q]? = some p → ∃ w, writers[q]? = some w ∧ p = newProc w := by
+    intro q p h
+    simp only [init, List.getElem?_map, Option.map_eq_some_iff] at h
+    obtain ⟨w, hw, rfl⟩ := h
+    exact ⟨w, hw, rfl⟩
+  refine ⟨?_, ?_, ?_, ?_, ?_, ?_, ?_⟩
+  · intro q p h
+    obtain ⟨w, hw, rfl⟩ := hq q p h
+    simpa [newProc] using hw
+  · simp [init]
+  · intro q p h
+    obtain ⟨w, hw, rfl⟩ := hq q p h
+    simp [init, newProc]
+  · intro q h; simp [init] at h
+  · intro before q after p h; simp [init] at h
+  · intro _
+    refine ⟨?_, ?_, ?_, ?_⟩
+    · intro q p h
+      obtain ⟨w, hw, rfl⟩ := hq q p h
+      left; rfl
+    all_goals simp [init, wf]
+  · intro h hh; simp [init] at hh
+
+/-- anyone in the critical section is the holder -/
+theorem Inv.holder_of_critical {log : List Nat} {writers : List Bool} {s : State} (hI : Inv log writers s) {pid : Nat} {p : Proc}
+    (hp : s.procs[pid]? = some p) (h1 : 1 ≤ p.pc) (h10 : p.pc ≤ 10) : s.holder = some pid := by
+  cases hh : s.holder with
+  | none =>
+    have := (hI.free hh).1 pid p hp
+    omega
+  | some h =>
+    obtain ⟨done, ph, _, _, hoth, _⟩ := hI.held h hh
+    by_cases e : pid = h
+    · rw [e]
+    · have := hoth pid p e hp
+      omega
+
+theorem Inv.getD_writer {log : List Nat} {writers : List Bool} {s : State} (hI : Inv log writers s) {pid : Nat} {p : Proc}
+    (hp : s.procs[pid]? = some p) : writers.getD pid false = p.writer := by
+  rw [List.getD_eq_getElem?_getD, hI.wr pid p hp]; rfl
+
+/-- taking the lock -/
+theorem inv_acquire {log : List Nat} {writers : List Bool} {s : State} (hI : Inv log writers s) {pid : Nat} {p : Proc}
+    (hp : s.procs[pid]? = some p) (hpc : p.pc = 0) (hfree : s.holder = none) :
+    Inv log writers
+      { setProc s pid { p with pc := 1 } with holder := some pid, order := s.order ++ [pid] } := by
+  have hnot : pid ∉ s.order := fun hm => ((hI.mem pid p hp).1 hm) hpc
+  obtain ⟨hall, hc, ha, hi⟩ := hI.free hfree
+  refine ⟨?_, ?_, ?_, ?_, ?_, ?_, ?_⟩
+  · intro q p1 h
+    simp only [procs_set hp] at h
+    split at h
+    · next e => subst e; cases h; exact hI.wr q p hp
+    · exact hI.wr q p1 h
+  · show (s.order ++ [pid]).Nodup
+    rw [List.nodup_append]
+    refine ⟨hI.nodup, by simp, ?_⟩
+    intro a ha b hb
+    simp only [List.mem_singleton] at hb
+    subst hb
+    intro e; subst e; exact hnot ha
+  · intro q p1 h
+    show q ∈ s.order ++ [pid] ↔ _
+    simp only [procs_set hp] at h
+    split at h
+    · next e => subst e; cases h; simp
+    · next e =>
+      rw [← hI.mem q p1 h]
+      simp [e]
+  · intro q h
+    have h : q ∈ s.order ++ [pid] := h
+    simp only [procs_set hp]
+    split
+    · exact ⟨_, rfl⟩
+    · next e =>
+      simp only [List.mem_append, List.mem_singleton, e, or_false] at h
+      exact hI.bound q h
+  · intro before q after p1 ho h h11
+    replace ho : s.order ++ [pid] = before ++ q :: after := ho
+    simp only [procs_set hp] at h
+    split at h
+    · cases h; simp at h11
+    · next e =>
+      rcases List.eq_nil_or_concat after with rfl | ⟨a', x, rfl⟩
+      · have := congrArg List.getLast? ho
+        simp at this
+        exact absurd this.symm e
+      · rw [List.concat_eq_append] at ho
+        have ho' : s.order ++ [pid] = (before ++ q :: a') ++ [x] := by simpa using ho
+        have := List.append_inj_left' ho' rfl
+        exact hI.hist before q a' p1 this h h11
+  · intro h; cases h
+  · intro h hh
+    have hh : some pid = some h := hh
+    cases hh
+    refine ⟨s.order, { p with pc := 1 }, rfl, ?_, ?_, ?_⟩
+    · simp [procs_set hp]
+    · intro q p1 e h
+      simp only [procs_set hp, e, if_false] at h
+      exact hall q p1 h
+    · show HolderOK _ _ _ s.files
+      simp [HolderOK, hc, ha, hi]
+
+/-- a step of the holder that keeps the lock -/
+theorem inv_internal {log : List Nat} {writers : List Bool} {s : State} (hI : Inv log writers s) {pid : Nat} {p : Proc}
+    (hp : s.procs[pid]? = some p) (h1 : 1 ≤ p.pc) (h10 : p.pc ≤ 10) (p' : Proc) (f' : Files)
+    (hw : p'.writer = p.writer)
+    (hok : ∀ B, HolderOK B pid p s.files → HolderOK B pid p' f') :
+    Inv log writers { setProc s pid p' with files := f' } := by
+  have hh := hI.holder_of_critical hp h1 h10
+  obtain ⟨done, ph, hord, hph, hoth, hH⟩ := hI.held pid hh
+  rw [hp] at hph; cases hph
+  have hH' := hok _ hH
+  refine ⟨?_, hI.nodup, ?_, ?_, ?_, ?_, ?_⟩
+  · intro q p1 h
+    simp only [procs_set hp] at h
+    split at h
+    · next e => subst e; cases h; rw [hw]; exact hI.wr q p hp
+    · exact hI.wr q p1 h
+  · intro q p1 h
+    show q ∈ s.order ↔ _
+    simp only [procs_set hp] at h
+    split at h
+    · next e =>
+      subst e; cases h
+      rw [hI.mem q p hp]
+      have := hH'.1
+      omega
+    · exact hI.mem q p1 h
+  · intro q h
+    have h : q ∈ s.order := h
+    simp only [procs_set hp]
+    split
+    · exact ⟨_, rfl⟩
+    · exact hI.bound q h
+  · intro before q after p1 ho h h11
+    replace ho : s.order = before ++ q :: after := ho
+    simp only [procs_set hp] at h
+    split at h
+    · cases h
+      have := hH'.2.1
+      omega
+    · exact hI.hist before q after p1 ho h h11
+  · intro h
+    have h : s.holder = none := h
+    rw [hh] at h; cases h
+  · intro h hh'
+    have hh' : s.holder = some h := hh'
+    rw [hh] at hh'; cases hh'
+    refine ⟨done, p', hord, ?_, ?_, hH'⟩
+    · simp [procs_set hp]
+    · intro q p1 e h
+      simp only [procs_set hp, e, if_false] at h
+      exact hoth q p1 e h
+
+/-- releasing the lock -/
+theorem inv_release {log : List Nat} {writers : List Bool} {s : State} (hI : Inv log writers s) {pid : Nat} {p : Proc}
+    (hp : s.procs[pid]? = some p) (hrel : p.pc = 10 ∨ (p.pc = 4 ∧ p.writer = false)) :
+    Inv log writers { setProc s pid { p with pc := 11 } with holder := none } := by
+  have hh := hI.holder_of_critical hp (by omega) (by omega)
+  obtain ⟨done, ph, hord, hph, hoth, hH⟩ := hI.held pid hh
+  rw [hp] at hph; cases hph
+  have hn : (done ++ pid :: []).Nodup := by
+    have := hI.nodup; rwa [hord] at this
+  obtain ⟨_, _, hg2, hg3, hg4, hw5, hfc, hfa, hfi⟩ := hH
+  refine ⟨?_, hI.nodup, ?_, ?_, ?_, ?_, ?_⟩
+  · intro q p1 h
+    simp only [procs_set hp] at h
+    split at h
+    · next e => subst e; cases h; exact hI.wr q p hp
+    · exact hI.wr q p1 h
+  · intro q p1 h
+    show q ∈ s.order ↔ _
+    simp only [procs_set hp] at h
+    split at h
+    · next e =>
+      subst e; cases h
+      rw [hI.mem q p hp]
+      simp only [ne_eq, Nat.reduceEqDiff, not_false_eq_true, iff_true]
+      omega
+    · exact hI.mem q p1 h
+  · intro q h
+    have h : q ∈ s.order := h
+    simp only [procs_set hp]
+    split
+    · exact ⟨_, rfl⟩
+    · exact hI.bound q h
+  · intro before q after p1 ho h h11
+    replace ho : s.order = before ++ q :: after := ho
+    simp only [procs_set hp] at h
+    split at h
+    · next e =>
+      subst e; cases h
+      rw [hord] at ho
+      have hb : done = before := nodup_split_unique hn ho
+      subst hb
+      exact ⟨hg2 (by omega), hg3 (by omega), hg4 (by omega)⟩
+    · exact hI.hist before q after p1 ho h h11
+  · intro _
+    refine ⟨?_, ?_⟩
+    · intro q p1 h
+      simp only [procs_set hp] at h
+      split at h
+      · cases h; right; rfl
+      · next e => exact hoth q p1 e h
+    · show s.files.cfg = .full (log ++ wf writers s.order) ∧
+        s.files.audits = .full (log ++ wf writers s.order) ∧
+        s.files.imports = .full (log ++ wf writers s.order)
+      rw [hord, wf_append_singleton, hI.getD_writer hp, hfc, hfa, hfi]
+      rcases hrel with h10 | ⟨h4, hwf⟩
+      · simp [h10, hw5 (by omega)]
+      · simp [h4, hwf]
+  · intro h hh'; cases hh'
+
+theorem inv_step {log : List Nat} {writers : List Bool} {s : State} (hI : Inv log writers s)
+    (pid : Nat) : Inv log writers ((step s pid).getD s) := by
+  unfold step
+  split
+  · exact hI
+  · next p hp =>
+    split
+    · next h0 =>
+      split
+      · next hf => exact inv_acquire hI hp h0 hf
+      · exact hI
+    · next hk =>
+      refine inv_internal hI hp (by omega) (by omega) _ s.files rfl ?_
+      intro B h
+      simp_all [HolderOK]
+    · next hk =>
+      refine inv_internal hI hp (by omega) (by omega) _ s.files rfl ?_
+      intro B h
+      simp_all [HolderOK]
+    · next hk =>
+      refine inv_internal hI hp (by omega) (by omega) _ s.files rfl ?_
+      intro B h
+      simp_all [HolderOK]
+    · next hk =>
+      split
+      · next hw =>
+        refine inv_internal hI hp (by omega) (by omega) _ _ rfl ?_
+        intro B h
+        simp_all [HolderOK]
+      · next hw =>
+        exact inv_release hI hp (Or.inr ⟨hk, by simpa using hw⟩)
+    · next hk =>
+      refine inv_internal hI hp (by omega) (by omega) _ _ rfl ?_
+      intro B h
+      simp_all [HolderOK]
+    · next hk =>
+      refine inv_internal hI hp (by omega) (by omega) _ _ rfl ?_
+      intro B h
+      simp_all [HolderOK]
+    · next hk =>
+      refine inv_internal hI hp (by omega) (by omega) _ _ rfl ?_
+      intro B h
+      simp_all [HolderOK, extend]
+    · next hk =>
+      refine inv_internal hI hp (by omega) (by omega) _ _ rfl ?_
+      intro B h
+      simp_all [HolderOK, extend]
+    · next hk =>
+      refine inv_internal hI hp (by omega) (by omega) _ _ rfl ?_
+      intro B h
+      simp_all [HolderOK, extend]
+    · next hk => exact inv_release hI hp (Or.inl hk)
+    · exact hI
+
+theorem inv_run {log : List Nat} {writers : List Bool} (sched : List Nat) {s : State}
+    (hI : Inv log writers s) : Inv log writers (run s sched) := by
+  induction sched generalizing s with
+  | nil => exact hI
+  | cons pid rest ih => exact ih (inv_step hI pid)
+
+theorem inv_reachable {log : List Nat} {writers : List Bool} (sched : List Nat) :
+    Inv log writers (run (init log writers) sched) := inv_run sched (inv_init log writers)
+
+/-! ### consequences of the invariant -/
+
+theorem Inv.mutex {log : List Nat} {writers : List Bool} {s : State} (hI : Inv log writers s)
+    {p q : Nat} {pp pq : Proc} (hp : s.procs[p]? = some pp) (hq : s.procs[q]? = some pq)
+    (cp : inCritical pp = true) (cq : inCritical pq = true) : p = q := by
+  simp only [inCritical, Bool.and_eq_true, decide_eq_true_eq] at cp cq
+  have h1 := hI.holder_of_critical hp cp.1 cp.2
+  have h2 := hI.holder_of_critical hq cq.1 cq.2
+  rw [h1] at h2
+  exact Option.some.inj h2
+
+/-- the holder's view -/
+theorem Inv.holder_ok {log : List Nat} {writers : List Bool} {s : State} (hI : Inv log writers s)
+    {p : Nat} {pp : Proc} (hp : s.procs[p]? = some pp) (h1 : 1 ≤ pp.pc) (h10 : pp.pc ≤ 10) :
+    ∃ done, s.order = done ++ [p] ∧ HolderOK (log ++ wf writers done) p pp s.files := by
+  obtain ⟨done, ph, hord, hph, _, hH⟩ := hI.held p (hI.holder_of_critical hp h1 h10)
+  rw [hp] at hph; cases hph
+  exact ⟨done, hord, hH⟩
+
+theorem Inv.pc_le {log : List Nat} {writers : List Bool} {s : State} (hI : Inv log writers s)
+    {p : Nat} {pp : Proc} (hp : s.procs[p]? = some pp) : pp.pc ≤ 11 := by
+  cases hh : s.holder with
+  | none => have := (hI.free hh).1 p pp hp; omega
+  | some h =>
+    obtain ⟨done, ph, _, hph, hoth, hH⟩ := hI.held h hh
+    by_cases e : p = h
+    · subst e; rw [hp] at hph; cases hph; have := hH.2.1; omega
+    · have := hoth p pp e hp; omega
+
+/-- everything loaded is the content at lock time -/
+theorem Inv.loaded {log : List Nat} {writers : List Bool} {s : State} (hI : Inv log writers s)
+    {p : Nat} {pp : Proc} (hp : s.procs[p]? = some pp) (hpc : 4 ≤ pp.pc) :
+    ∃ before after, s.order = before ++ p :: after ∧
+      pp.gotCfg = .full (log ++ wf writers before) ∧
+      pp.gotAudits = .full (log ++ wf writers before) ∧
+      pp.gotImports = .full (log ++ wf writers before) := by
+  by_cases h10 : pp.pc ≤ 10
+  · obtain ⟨done, hord, hH⟩ := hI.holder_ok hp (by omega) h10
+    obtain ⟨_, _, hg2, hg3, hg4, _⟩ := hH
+    exact ⟨done, [], hord, hg2 (by omega), hg3 (by omega), hg4 (by omega)⟩
+  · have h11 : pp.pc = 11 := by have := hI.pc_le hp; omega
+    have hm : p ∈ s.order := (hI.mem p pp hp).2 (by omega)
+    obtain ⟨before, after, hord⟩ := List.append_of_mem hm
+    exact ⟨before, after, hord, hI.hist before p after pp hord hp h11⟩
+
+theorem Inv.committed_eq {log : List Nat} {writers : List Bool} {s : State}
+    (hI : Inv log writers s) (hfree : s.holder = none) : committed s = wf writers s.order := by
+  unfold committed wf
+  apply List.filter_congr
+  intro q hq
+  obtain ⟨p, hp⟩ := hI.bound q hq
+  have h0 : p.pc ≠ 0 := (hI.mem q p hp).1 hq
+  have h11 : p.pc = 11 := by have := (hI.free hfree).1 q p hp; omega
+  simp [hp, h11, hI.wr q p hp]
+
 end Vet.Lock
